@@ -1,63 +1,209 @@
-import Infretis.Lemmas.RepexC07Count
+import Infretis.Lemmas.RepexC07Reissue
 /-!
 # C07 — chains of restarts
 
-`ChainReach seed y js`: the scheduler state `y` is reached from a fresh start with configured seed
-`seed` through any number of rounds (run a history; stop; restart from the restart image), and `js`
-are all jobs issued on the way, over the whole chain, in issue order.
+`ChainReach seed y log`: the scheduler state `y` is reached from a fresh start with configured seed
+`seed` through any number of rounds (run a history; stop; restart from the restart image; the
+initiation loop re-issues the recorded jobs), and `log` are all `Entry`s — fresh jobs and re-issues —
+over the whole chain, in issue order.
 
-A restart may be taken between two events (`restart`) or at the instant `treat_output` writes
-`restart.toml`, i.e. before the next job is drawn (`restartMid`) — the latter is where the code
-writes the file.  Both constructors carry the guard `spawned = cstep + #locked` for the state the
-image is taken from ("the in-flight record is exact").  `RepexC07Count` proves the guard for every
-state of a history that starts with an exact record and nothing to re-issue (a fresh start, or a
-restart without in-flight jobs).  After a restart WITH in-flight jobs the guard is false in general
-(re-issued jobs consume new ordinals but were already counted) — see the counterexample in
-`Props/C07.lean`.
+A restart image may be taken between two events (`restart`) or at the instant `treat_output` writes
+`restart.toml`, i.e. before the next job is drawn (`restartMid`, where the code writes the file).
+The restarted sampler has the same number of ensembles; workers, steps, engine table and the
+recomputed weights are arbitrary.
+
+Scope (stated, not hidden): each restart constructor contains the re-issue phase — as many `start`
+events as there are recorded jobs, all of which succeed.  That is what `scheduler()` does first.  If
+the restarted run has fewer workers or fewer remaining steps than recorded jobs, the un-re-issued
+records are dropped by the code (they never complete; their results are never consumed) and their
+ordinals may later be given to fresh jobs; such restarts are outside `ChainReach`.
 -/
 namespace Infretis.Repex
 
-inductive ChainReach (seed : Nat) : Sys → List Job → Prop
-  | fresh {s0 : St} : s0.seed = seed → s0.entropy = seed → s0.spawned = 0 →
-      ChainReach seed { s := s0, jobs := [] } []
-  | run {y y' : Sys} {js : List Job} {evs : List Ev} : ChainReach seed y js → run y evs = .ok y' →
-      ChainReach seed y' (js ++ issued y evs)
-  | restart {y : Sys} {js : List Job} {s' : St} {n workers tsteps : Nat} {occ : List (List Int)}
-      {ensEng : List (List Nat)} {weightOf : Nat → List Rat} : ChainReach seed y js →
-      y.s.spawned = y.s.cstep + y.s.locked.length →
-      restore (persist y.s) n workers tsteps occ ensEng weightOf = .ok s' →
-      ChainReach seed { s := s', jobs := [] } js
-  | restartMid {y : Sys} {js : List Job} {k : Nat} {status : Status} {newW : List (List Rat)}
-      {s2 s' : St} {n workers tsteps : Nat} {occ : List (List Int)}
-      {ensEng : List (List Nat)} {weightOf : Nat → List Rat} : ChainReach seed y js →
+inductive ChainReach (seed : Nat) : Sys → List Entry → Prop
+  | fresh {y0 : Sys} : Init y0 → y0.s.seed = seed → y0.s.entropy = seed → y0.s.spawned = 0 →
+      y0.s.cstep = 0 → y0.s.locked = [] → y0.s.lockedOrd = [] → ChainReach seed y0 []
+  | run {y y' : Sys} {log : List Entry} {evs : List Ev} : ChainReach seed y log →
+      run y evs = .ok y' → ChainReach seed y' (log ++ ghost y evs)
+  | restart {y y' : Sys} {log : List Entry} {s' : St} {workers tsteps : Nat} {occ : List (List Int)}
+      {ensEng : List (List Nat)} {weightOf : Nat → List Rat} {pre : List Ev} :
+      ChainReach seed y log →
+      restore (persist y.s) y.s.n workers tsteps occ ensEng weightOf = .ok s' →
+      pre.length = y.s.locked.length → (∀ ev ∈ pre, ∃ o d, ev = Ev.start o d) →
+      Infretis.Repex.run { s := s', jobs := [] } pre = .ok y' →
+      ChainReach seed y' (log ++ ghost { s := s', jobs := [] } pre)
+  | restartMid {y y' : Sys} {log : List Entry} {k : Nat} {status : Status} {newW : List (List Rat)}
+      {s2 s' : St} {workers tsteps : Nat} {occ : List (List Int)} {ensEng : List (List Nat)}
+      {weightOf : Nat → List Rat} {pre : List Ev} : ChainReach seed y log →
       midState y k status newW = .ok s2 →
-      s2.spawned = s2.cstep + s2.locked.length →
-      restore (persist s2) n workers tsteps occ ensEng weightOf = .ok s' →
-      ChainReach seed { s := s', jobs := [] } js
+      restore (persist s2) s2.n workers tsteps occ ensEng weightOf = .ok s' →
+      pre.length = s2.locked.length → (∀ ev ∈ pre, ∃ o d, ev = Ev.start o d) →
+      Infretis.Repex.run { s := s', jobs := [] } pre = .ok y' →
+      ChainReach seed y' (log ++ ghost { s := s', jobs := [] } pre)
 
-/-- along a chain the seed sequence is the one of the configured seed, the spawn counter counts all
-    jobs issued over the whole chain, and the `k`-th of them carries the streams of ordinal `k` -/
-theorem ChainReach.streams {seed : Nat} {y : Sys} {js : List Job} (h : ChainReach seed y js) :
-    y.s.seed = seed ∧ y.s.entropy = seed ∧ y.s.spawned = js.length ∧ StreamsFrom seed 0 js := by
-  induction h with
-  | fresh h1 h2 h3 => exact ⟨h1, h2, by simpa using h3, StreamsFrom.nil _ _⟩
-  | @run y y' js evs _ hr ih =>
-    obtain ⟨i1, i2, i3, i4⟩ := ih
-    obtain ⟨r1, r2, r3⟩ := run_spawned evs hr
-    refine ⟨r1.trans i1, r2.trans i2, by rw [r3, i3, List.length_append], ?_⟩
-    apply StreamsFrom.append i4
-    have := issued_streams evs y
-    rw [i2, i3] at this
-    rw [Nat.zero_add]
+/-- what holds along every chain -/
+structure ChainInv (seed : Nat) (y : Sys) (log : List Entry) : Prop where
+  ninv : NInv y
+  hseed : y.s.seed = seed
+  hentropy : y.s.entropy = seed
+  tagged : Tagged seed log
+  /-- the `k`-th fresh (= distinct) job of the chain has ordinal `k`; the counter counts them -/
+  fresh : freshOrds log = List.range y.s.spawned
+  /-- every entry, re-issues included, carries the ordinal of a distinct job issued so far -/
+  ordLt : ∀ e ∈ log, e.ord < y.s.spawned
+  /-- every job in flight is in the log -/
+  jobsLogged : ∀ job ∈ y.jobs, ∃ e ∈ log, e.job = job
+
+/-- one restart, from a stop state that satisfies the invariant -/
+theorem chain_restart_step {seed : Nat} {s s' : St} {jobs : List Job} {log : List Entry} {y' : Sys}
+    {workers tsteps : Nat} {occ : List (List Int)} {ensEng : List (List Nat)}
+    {weightOf : Nat → List Rat} {pre : List Ev}
+    (hm : MidInv s jobs) (hseed : s.seed = seed) (htag : Tagged seed log)
+    (hfo : freshOrds log = List.range s.spawned) (hlt : ∀ e ∈ log, e.ord < s.spawned)
+    (hre : restore (persist s) s.n workers tsteps occ ensEng weightOf = .ok s')
+    (hlen : pre.length = s.locked.length) (hst : ∀ ev ∈ pre, ∃ o d, ev = Ev.start o d)
+    (hr : Infretis.Repex.run { s := s', jobs := [] } pre = .ok y') :
+    ChainInv seed y' (log ++ ghost { s := s', jobs := [] } pre) := by
+  obtain ⟨hp, hl0, p1, p2, p3, _, _, _, _⟩ := restart_pinv hm hre
+  have hlen' : pre.length = s.lockedOrd.length := by
+    rw [hlen, hm.ordLen, hm.recd, List.length_map]
+  obtain ⟨g1, g2, g3, g4, _, _, g7, g8, _, _⟩ := phase_run s.lockedOrd pre hp hlen' hst hr
+  have hsp : y'.s.spawned = s.spawned := g2.trans p3
+  have hen : y'.s.entropy = seed := by rw [g4]; show s'.entropy = seed; rw [p2, hseed]
+  have hgt : Tagged seed (ghost { s := s', jobs := [] } pre) := by
+    have := (ghost_spec pre { s := s', jobs := [] }).1
+    rw [show ({ s := s', jobs := [] } : Sys).s.entropy = s'.entropy from rfl, p2, hseed] at this
     exact this
-  | restart _ hg hre ih =>
-    obtain ⟨i1, i2, i3, i4⟩ := ih
-    obtain ⟨r1, r2, r3, _⟩ := restore_continues hg hre
-    exact ⟨r1.trans i1, r2.trans i1, r3.trans i3, i4⟩
-  | restartMid _ hm hg hre ih =>
-    obtain ⟨i1, i2, i3, i4⟩ := ih
-    obtain ⟨_, _, m1, _, m3, _⟩ := midState_spec hm
-    obtain ⟨r1, r2, r3, _⟩ := restore_continues hg hre
-    exact ⟨(r1.trans m1).trans i1, (r2.trans m1).trans i1, (r3.trans m3).trans i3, i4⟩
+  have hfr : ∀ e ∈ ghost { s := s', jobs := [] } pre, e.fresh = false ∧ e.ord ∈ s.lockedOrd := by
+    intro e he
+    have hm' : (e.ord, e.fresh) ∈ (ghost { s := s', jobs := [] } pre).map (fun e => (e.ord, e.fresh)) :=
+      List.mem_map.mpr ⟨e, he, rfl⟩
+    rw [g8] at hm'
+    obtain ⟨o, ho, heq⟩ := List.mem_map.mp hm'
+    simp only [Prod.mk.injEq] at heq
+    exact ⟨heq.2.symm, by rw [← heq.1]; exact ho⟩
+  refine ⟨g1, by rw [g3]; show s'.seed = seed; rw [p1, hseed], hen, htag.append hgt, ?_, ?_, ?_⟩
+  · rw [freshOrds_append, hsp, hfo]
+    have : freshOrds (ghost { s := s', jobs := [] } pre) = [] := by
+      unfold freshOrds
+      rw [List.filter_eq_nil_iff.mpr (fun e he => by rw [(hfr e he).1]; simp)]
+      rfl
+    rw [this, List.append_nil]
+  · intro e he
+    rw [hsp]
+    rcases List.mem_append.mp he with he | he
+    · exact hlt e he
+    · exact hm.ordLt _ (hfr e he).2
+  · intro job hj
+    rw [g7] at hj
+    simp only [List.nil_append] at hj
+    obtain ⟨e, he, hej⟩ := List.mem_map.mp hj
+    exact ⟨e, List.mem_append.mpr (Or.inr he), hej⟩
+
+/-- **the chain invariant**: along any chain of restarts the invariant of `RepexC07Count` holds,
+    every entry carries the streams `(seed, [ord, j])` / `(seed, [ord, j, 0])` of its ordinal, the
+    `k`-th distinct job has ordinal `k`, and re-issues re-use ordinals of distinct jobs issued before. -/
+theorem ChainReach.inv {seed : Nat} {y : Sys} {log : List Entry} (h : ChainReach seed y log) :
+    ChainInv seed y log := by
+  induction h with
+  | fresh hi h1 h2 h3 h4 h5 h6 =>
+    refine ⟨ninv_of_init hi h5 h6 (by rw [h3, h4]), h1, h2, by intro e he; simp at he, ?_,
+      by intro e he; simp at he, ?_⟩
+    · rw [h3]; rfl
+    · intro job hj
+      rw [hi.jobs] at hj
+      simp at hj
+  | @run y y' log evs _ hr ih =>
+    obtain ⟨r1, r2, r3, _⟩ := run_spawned evs hr
+    obtain ⟨s1, s2, s3⟩ := ghost_spec evs y
+    rw [ih.hentropy] at s1
+    have hfo : freshOrds (log ++ ghost y evs) = List.range y'.s.spawned := by
+      rw [freshOrds_append, ih.fresh, s2, r3, List.range_eq_range', List.range_eq_range']
+      have := @List.range'_append 0 y.s.spawned (freshOrds (ghost y evs)).length 1
+      simpa using this
+    refine ⟨run_ninv evs ih.ninv hr, r1.trans ih.hseed, r2.trans ih.hentropy, ih.tagged.append s1, hfo,
+      ?_, ?_⟩
+    · intro e he
+      rcases List.mem_append.mp he with he | he
+      · have := ih.ordLt e he; omega
+      · by_cases hf : e.fresh = true
+        · have hm : e.ord ∈ freshOrds (log ++ ghost y evs) := by
+            rw [freshOrds_append]
+            apply List.mem_append.mpr
+            right
+            unfold freshOrds
+            exact List.mem_map.mpr ⟨e, List.mem_filter.mpr ⟨he, hf⟩, rfl⟩
+          rw [hfo] at hm
+          exact List.mem_range.mp hm
+        · -- with nothing waiting to be re-issued every issue of a plain run is a fresh one
+          exfalso
+          exact hf (ghost_all_fresh evs ih.ninv.core.l0 e he)
+    · intro job hj
+      rcases jobs_subset_issued evs hr job hj with h | h
+      · obtain ⟨e, he, hej⟩ := ih.jobsLogged job h
+        exact ⟨e, List.mem_append.mpr (Or.inl he), hej⟩
+      · obtain ⟨e, he, hej⟩ := List.mem_map.mp h
+        exact ⟨e, List.mem_append.mpr (Or.inr he), hej⟩
+  | restart _ hre hlen hst hr ih =>
+    exact chain_restart_step ih.ninv.mid ih.hseed ih.tagged ih.fresh ih.ordLt hre hlen hst hr
+  | @restartMid y y' log k status newW s2 s' _ _ _ _ _ pre _ hmid hre hlen hst hr ih =>
+    obtain ⟨hm2, _, _, hsp⟩ := midState_inv ih.ninv hmid
+    obtain ⟨_, _, m1, _, _⟩ := midState_spec hmid
+    exact chain_restart_step hm2 (m1.trans ih.hseed) ih.tagged (by rw [hsp]; exact ih.fresh)
+      (by rw [hsp]; exact ih.ordLt) hre hlen hst hr
+
+/-- **`reissue_same_streams`**: stop in a state that satisfies the invariant (jobs `jobs` in flight,
+    entropy = seed), restart, let the initiation loop re-issue the recorded jobs.  The `i`-th
+    re-issued job is the `i`-th job that was in flight at the stop — same ensembles, same path
+    numbers — it is re-issued under the ordinal recorded for that job, and it receives exactly the
+    move and engine streams that job had before the stop, entry by entry. -/
+theorem reissue_same_streams {s s' : St} {jobs : List Job} {y' : Sys} {workers tsteps : Nat}
+    {occ : List (List Int)} {ensEng : List (List Nat)} {weightOf : Nat → List Rat} {pre : List Ev}
+    (hm : MidInv s jobs) (hent : s.entropy = s.seed)
+    (hre : restore (persist s) s.n workers tsteps occ ensEng weightOf = .ok s')
+    (hlen : pre.length = s.locked.length) (hst : ∀ ev ∈ pre, ∃ o d, ev = Ev.start o d)
+    (hr : Infretis.Repex.run { s := s', jobs := [] } pre = .ok y') :
+    (ghost { s := s', jobs := [] } pre).length = jobs.length ∧ y'.s.spawned = s.spawned ∧
+    ∀ (i : Nat) (e : Entry) (job : Job), (ghost { s := s', jobs := [] } pre)[i]? = some e →
+      jobs[i]? = some job →
+      e.fresh = false ∧ s.lockedOrd[i]? = some e.ord ∧ jobRec e.job = jobRec job ∧
+      ∀ (j : Nat) (p q : Picked), e.job.picked[j]? = some p → job.picked[j]? = some q →
+        p.rgen = q.rgen ∧ p.rgenEng = q.rgenEng := by
+  obtain ⟨hp, hl0, _, p2, p3, _, _, _, _⟩ := restart_pinv hm hre
+  have hlen' : pre.length = s.lockedOrd.length := by
+    rw [hlen, hm.ordLen, hm.recd, List.length_map]
+  obtain ⟨_, g2, _, _, _, _, _, g8, g9, _⟩ := phase_run s.lockedOrd pre hp hlen' hst hr
+  have hgt := (ghost_spec pre { s := s', jobs := [] }).1
+  rw [show ({ s := s', jobs := [] } : Sys).s.entropy = s'.entropy from rfl, p2] at hgt
+  have hglen : (ghost { s := s', jobs := [] } pre).length = jobs.length := by
+    have := congrArg List.length g8
+    simp only [List.length_map] at this
+    rw [this, hm.ordLen]
+  refine ⟨hglen, g2.trans p3, ?_⟩
+  intro i e job hei hji
+  have h8 := congrArg (fun l => l[i]?) g8
+  simp only [List.getElem?_map, hei, Option.map_some] at h8
+  cases hoi : s.lockedOrd[i]? with
+  | none => rw [hoi] at h8; simp at h8
+  | some ord =>
+    rw [hoi] at h8
+    simp only [Option.map_some, Option.some.injEq, Prod.mk.injEq] at h8
+    obtain ⟨ho, hf⟩ := h8
+    have h9 := congrArg (fun l => l[i]?) g9
+    rw [show ({ s := s', jobs := [] } : Sys).s.locked0 = s'.locked0 from rfl, hl0] at h9
+    simp only [List.getElem?_map, hei, hji, Option.map_some, Option.some.injEq] at h9
+    rw [recOf_jobRec0 job (hm.shape job (List.mem_of_getElem? hji)).ensGe] at h9
+    refine ⟨hf, by rw [ho], h9, ?_⟩
+    intro j p q hp hq
+    have hz : (job, ord) ∈ jobs.zip s.lockedOrd := by
+      apply List.mem_of_getElem? (i := i)
+      rw [List.getElem?_zip_eq_some]
+      exact ⟨hji, hoi⟩
+    have hs1 := hm.ordStreams (job, ord) hz j q hq
+    have hs2 := hgt e (List.mem_of_getElem? hei) j p hp
+    rw [hent] at hs1
+    simp only at hs1
+    rw [hs2.1, hs2.2, hs1.1, hs1.2, ho]
+    exact ⟨rfl, rfl⟩
 
 end Infretis.Repex
